@@ -4,9 +4,11 @@ Require Import ObsRun Lemmas_NonInt.
 Require Import ZifyBool.
 Local Open Scope Z_scope.
 
-(* dontcare_equiv cfg g g' (Observers.v): same four error codes; block A equal if ea = 0; block B
-   equal if it is accepted for anything in g or in g' (error-free, or within the info threshold of
-   the text its group type carries); block C / D equal if B is accepted and C / D is accepted for
+(* dontcare_equiv cfg g g' (Observers.v): same four error codes; block A equal if ea = 0; block B,
+   if it is accepted for anything in g or in g': equal when error-free; when corrected (accepted only
+   as the address of text characters, within the info threshold of the text its group type carries)
+   equal on group type, version and cell address (b_key) — its PTY, TP, TA, MS and remaining bits
+   are don't-cares like a rejected block; block C / D equal if B is accepted and C / D is accepted for
    what this group type reads from it (error-free for AF, ECC, clock time; within the data threshold
    of the text for characters).
    For every reachable state and every such pair of groups the WHOLE result of the call is equal:
@@ -51,9 +53,21 @@ Proof.
       rewrite !andb_false_r. reflexivity. }
     rewrite Hud. cbn [negb orb]. rewrite orb_diag.
     destruct (used_b (snap_of s) (eb g) (gb g)); [|reflexivity].
-    rewrite orb_true_r, andb_true_r. reflexivity.
+    rewrite orb_true_r, andb_true_r. unfold b_equiv. destruct (eb g =? 0); rewrite Z.eqb_refl; reflexivity.
 Qed.
 Print Assumptions C03_uncorrectable_D_ignored.
+
+(* the bits of a corrected block B that are accepted error-free only: a type-0 group whose block B
+   carries a corrected error within the PS threshold may have its PTY, TP, TA, MS and DI bits
+   replaced by anything (only the group type, the version and the 2-bit PS address count) *)
+Example C03_corrected_B_bits :
+  let s := run_u (firstn 12 scenario) in        (* PS info threshold 0 there: raise it *)
+  let s1 := fst (step_u s (OSetCorr PS INFO 1)) in
+  dontcare_equiv (snap_of s1) (mkgroup 1 (0 * 4096 + 1024 + 31 * 32 + 16 + 8 + 2) 2 16706 0 1 0 0)
+                              (mkgroup 1 (0 * 4096 + 2) 9 16706 0 1 3 0) = false      (* C differs with ec differing: not a pair *)
+  /\ dontcare_equiv (snap_of s1) (mkgroup 1 (0 * 4096 + 1024 + 31 * 32 + 16 + 8 + 2) 2 16706 0 1 1 0)
+                                 (mkgroup 1 (0 * 4096 + 2) 9 16706 0 1 1 0) = true.
+Proof. vm_compute. split; reflexivity. Qed.
 
 (* clock time needs all three blocks error-free: with any error on D, block D is irrelevant even
    in a 4A group — an instance of the above for codes 1 and 2 is covered by dontcare_equiv itself *)
